@@ -832,3 +832,58 @@ def split_ints(s, sep):
     for p in s.split(sep):
         out.append(int(p) if isinstance(p, str) else p.to_int())
     return out
+
+
+# ---------------------------------------------------------------- IEEE-754 binary64 (only int / int and int(float))
+
+FLOAT_MODEL = "exact"  # "exact": CPython's correctly rounded int/int; "cheap": float(a)/float(b) (candidate generator only)
+
+
+class SymFloat:
+    __slots__ = ("t", "lo", "hi")
+
+    def __init__(self, t, lo, hi):
+        self.t, self.lo, self.hi = t, lo, hi
+
+    def to_int(self):
+        """int(f): truncation toward zero"""
+        lo, hi = int(self.lo) - 1, int(self.hi) + 1
+        w = fit(lo, hi) + 1
+        return SymInt.mk(z3.fpToSBV(z3.RTZ(), self.t, z3.BitVecSort(w)), lo, hi)
+
+    def __repr__(self):
+        return "SymFloat"
+
+    def __format__(self, spec):
+        return "<symfloat>"
+
+
+def sym_truediv(a, b):
+    """CPython's ``int / int``: the exact quotient correctly rounded (round-half-even) to binary64."""
+    from .engine import Unsupported
+
+    A, B = SymInt.lift(a), SymInt.lift(b)
+    if B.lo <= 0 <= B.hi:
+        if B.lo == B.hi:
+            raise ZeroDivisionError("division by zero")
+        raise Unsupported("symbolic divisor that may be zero")
+    F64 = z3.Float64()
+    rne = z3.RNE()
+    amax, bmax = max(abs(A.lo), abs(A.hi)), max(abs(B.lo), abs(B.hi))
+    qs = [A.lo / B.lo, A.lo / B.hi, A.hi / B.lo, A.hi / B.hi]
+    lo, hi = min(qs), max(qs)
+    if amax < (1 << 53) and bmax < (1 << 53):
+        # both conversions are exact, IEEE division is correctly rounded: exactly CPython's result
+        q = z3.fpDiv(rne, z3.fpSignedToFP(rne, A.t, F64), z3.fpSignedToFP(rne, B.t, F64))
+    elif FLOAT_MODEL == "cheap":
+        q = z3.fpDiv(rne, z3.fpSignedToFP(rne, A.t, F64), z3.fpSignedToFP(rne, B.t, F64))
+    else:
+        if amax >= (1 << 64) or bmax >= (1 << 53):
+            raise Unsupported("true division outside the modelled operand range (|a| < 2^64, |b| < 2^53)")
+        # quotient in a format wide enough to hold both operands exactly (130-bit significand), then re-rounded to binary64.
+        # Innocuous double rounding: for |a| < 2^64, 0 < |b| < 2^53 a non-zero distance of a/b from a binary64 rounding
+        # boundary is >= 2^-(53+11+53) relative, far above the 2^-129 relative error of the wide quotient.
+        WIDE = z3.FPSort(15, 130)
+        qa = z3.fpDiv(rne, z3.fpSignedToFP(rne, A.t, WIDE), z3.fpSignedToFP(rne, B.t, WIDE))
+        q = z3.fpFPToFP(rne, qa, F64)
+    return SymFloat(q, lo, hi)
